@@ -38,7 +38,7 @@ func vfSvcConfig(strategy pbredis.ReadStrategy, cps *pbredis.Compression, connLi
 	return &service.Config{
 		Listener:        &service.Listener{Address: &common.Address{Ip: "127.0.0.1", Port: 6400}, ConnectionLimit: connLimit},
 		ConnectTimeout:  vfDur(time.Second),
-		IdleTimeout:     vfDur(0),
+		IdleTimeout:     vfDur(10 * time.Minute),
 		Protocol:        protocol.Redis,
 		ProtocolOptions: &service.Config_RedisOption{RedisOption: opt},
 	}
